@@ -211,16 +211,22 @@ def families(ctx, anchor):
     fams = []
     # client side: consent, calendar, approval; no worker steps
     fams.append(dict(base, name='client', builds=['A1', 'U1'], names=['ok', 'ch:a', 'ch:z'], tick=['half', 'wkend'],
-                     inc=ctx.pick(2, 3), run=2, set=ctx.pick(1, 2), work=0,
+                     inc=ctx.pick(2, 3), run=2, set=2, work=0,
                      witnesses={k: v for k, v in WITNESSES.items() if k not in ('W_ChartRange', 'W_ChartMissingDay')}))
     # worker side: two weeks, same and different X, merge and chart
     fams.append(dict(base, name='worker', builds=['A1', 'A2'], names=['ok', 'ch:a'], tick=['wkend'], initmodes=[on_past], setmodes=[],
-                     inc=2, run=ctx.pick(1, 2), set=0, work=ctx.pick(3, 4), phased=True,
+                     inc=2, run=2, set=0, work=ctx.pick(3, 4), phased=True,
                      witnesses={k: v for k, v in dict(WITNESSES, **WITNESSES_2W).items() if k in ('W_ChartRange', 'W_ChartMissingDay', 'W_SameIdTwoWeeks', 'W_IncAfterRotation', 'W_RateBelowX')}))
-    # server refusal, unreachable server, old weeks
-    fams.append(dict(base, name='server', builds=['A1'], names=['ok', 'no'], tick=['wkend', 'old'], horizon=40, initmodes=[on_past], setmodes=['local', 'on'],
-                     xs=[0, 2, 7], down=1, inc=2, run=ctx.pick(2, 3), set=1, work=0,
-                     witnesses={k: v for k, v in WITNESSES_2W.items() if k != 'W_SameIdTwoWeeks'}))
+    # server refusal, unreachable server, reports waiting over mode changes, old weeks
+    w2 = {k: v for k, v in WITNESSES_2W.items() if k != 'W_SameIdTwoWeeks'}
+    if ctx.thorough():
+        fams.append(dict(base, name='server', builds=['A1'], names=['ok', 'no'], tick=['wkend', 'old'], horizon=40, initmodes=[on_past], setmodes=['local', 'on'],
+                         xs=[0, 2, 7], down=1, inc=2, run=3, set=1, work=0, witnesses=w2))
+    else:
+        fams.append(dict(base, name='server', builds=['A1'], names=['ok', 'no'], tick=['wkend'], initmodes=[on_past], setmodes=['local', 'on'],
+                         xs=[0, 2, 7], down=1, inc=2, run=2, set=1, work=0, witnesses={k: v for k, v in w2.items() if k != 'W_TooOld'}))
+        fams.append(dict(base, name='old', builds=['A1'], names=['ok'], tick=['wkend', 'old'], horizon=40, initmodes=[on_past], setmodes=[],
+                         xs=[2, 7], down=1, inc=2, run=2, set=0, work=0, witnesses={'W_TooOld': WITNESSES_2W['W_TooOld']}))
     if ctx.thorough():
         fams.append(dict(base, name='client-3builds', builds=['A1', 'A3', 'U2'], names=['ok', 'ch:b', 'st'], tick=['half', 'wkend'],
                          inc=3, run=2, set=1, work=0, witnesses={}))
@@ -695,8 +701,6 @@ def run(ctx):
     chunk = 6000
     parts = []
     cur = []
-    for b in behs:
-        bl = [ln for ln in lines if False]
     by_t = {}
     for ln in lines:
         by_t.setdefault(ln['t'], []).append(ln)
